@@ -2737,8 +2737,9 @@ class ParserFromRuntype implements BeffParser<any> {
   describe(): string {
     const ctx: DescribeContext = {
       activeRefs: new Set(),
-      definitions: {},
-      refCounts: {},
+      // (tables keyed by type names: no inherited members, a type may be called toString or valueOf)
+      definitions: Object.create(null),
+      refCounts: Object.create(null),
       visitedRefs: new Set(),
     };
     collectDescribeRefs(this._runtype, ctx);
